@@ -274,6 +274,129 @@ func RunC11(c *Ctx, r *Report) {
 	c.saLookupUnconditionalRule(r, prefix)
 	c.tvValueOnlyUnderTVRule(r, prefix+"tv-value-only-under-tv")
 	c.transformWireRule(r, prefix)
+	c.typedNilRule(r, prefix+"no-typed-nil")
+}
+
+// typedNilRule: "unknown identifiers ... yield 'unsupported'" is observed by callers as a nil interface. A
+// pointer that may be nil (the result of a map lookup that missed, a nil constant) wrapped into an interface is
+// a non-nil interface holding a nil pointer: `descriptor != nil` holds, and the first method call on it
+// dereferences nil. In the registry packages no interface value is made from a pointer that may be nil.
+func (c *Ctx) typedNilRule(r *Report, rule string) {
+	r.Rule(rule, "in the algorithm registry packages and the SA constructors no interface value is built from a pointer that may be nil (a missed map lookup, a nil constant): 'unsupported' is the nil interface, never a typed nil", 10)
+	mayBeNil := func(v ssa.Value) string {
+		var walk func(v ssa.Value, depth int) string
+		walk = func(v ssa.Value, depth int) string {
+			if depth > 3 {
+				return ""
+			}
+			switch x := v.(type) {
+			case *ssa.Const:
+				if x.Value == nil {
+					return "the nil pointer constant"
+				}
+			case *ssa.Lookup:
+				if !x.CommaOk {
+					return "the result of a map lookup, which is nil for a key that is not registered"
+				}
+			case *ssa.Extract:
+				if lk, ok := x.Tuple.(*ssa.Lookup); ok && x.Index == 0 {
+					// fine when the use is behind the ok test; decided by the caller through dominance
+					_ = lk
+					return "the value of a comma-ok map lookup"
+				}
+			case *ssa.Phi:
+				for _, e := range x.Edges {
+					if w := walk(e, depth+1); w != "" {
+						return w
+					}
+				}
+			}
+			return ""
+		}
+		return walk(v, 0)
+	}
+	n := 0
+	for _, fn := range c.ModFuncs {
+		root := fn
+		for root.Parent() != nil {
+			root = root.Parent()
+		}
+		if root.Pkg == nil {
+			continue
+		}
+		path := root.Pkg.Pkg.Path()
+		if !strings.HasPrefix(path, ModulePath+"/security") {
+			continue
+		}
+		for _, b := range fn.Blocks {
+			for _, ins := range b.Instrs {
+				mi, ok := ins.(*ssa.MakeInterface)
+				if !ok {
+					continue
+				}
+				if _, isPtr := mi.X.Type().Underlying().(*types.Pointer); !isPtr {
+					continue
+				}
+				n++
+				key := c.FuncName(fn) + ": " + c.SrcExpr(mi)
+				why := mayBeNil(mi.X)
+				if why == "the value of a comma-ok map lookup" {
+					// behind the ok edge of its own lookup?
+					ex := mi.X.(*ssa.Extract)
+					guarded := false
+					for _, u := range *ex.Tuple.(*ssa.Lookup).Referrers() {
+						if okx, isEx := u.(*ssa.Extract); isEx && okx.Index == 1 {
+							for x := b; x != nil; x = x.Idom() {
+								if len(x.Preds) != 1 {
+									continue
+								}
+								p := x.Preds[0]
+								if iff, isIf := p.Instrs[len(p.Instrs)-1].(*ssa.If); isIf && iff.Cond == ssa.Value(okx) && p.Succs[0] == x {
+									guarded = true
+								}
+							}
+						}
+					}
+					if guarded {
+						why = ""
+					}
+				}
+				if why != "" && c.knownNonNilAt(mi.X, b) {
+					why = ""
+				}
+				r.Check(why == "", rule, key, c.InstrPos(mi), "the wrapped pointer is an allocation, a registry entry found, or tested against nil", "the interface value is built from "+why+": a typed nil, which compares unequal to nil")
+			}
+		}
+	}
+	_ = n
+}
+
+// knownNonNilAt: block b is only reached over the non-nil edge of a nil test of v.
+func (c *Ctx) knownNonNilAt(v ssa.Value, b *ssa.BasicBlock) bool {
+	for x := b; x != nil; x = x.Idom() {
+		if len(x.Preds) != 1 {
+			continue
+		}
+		p := x.Preds[0]
+		iff, ok := p.Instrs[len(p.Instrs)-1].(*ssa.If)
+		if !ok || p.Succs[0] == p.Succs[1] {
+			continue
+		}
+		cond, ok := iff.Cond.(*ssa.BinOp)
+		if !ok || (cond.Op != token.EQL && cond.Op != token.NEQ) {
+			continue
+		}
+		var tested ssa.Value
+		if isNilConst(cond.Y) {
+			tested = cond.X
+		} else if isNilConst(cond.X) {
+			tested = cond.Y
+		}
+		if tested == v && (cond.Op == token.NEQ) == (p.Succs[0] == x) {
+			return true
+		}
+	}
+	return false
 }
 
 // transformWireRule: "converts to a transform that survives the wire": the Transform record of encoder and
